@@ -31,7 +31,10 @@ func Debug(c *mc.Ctx) {
 		addr := w.PreludeProof(code)
 		fmt.Println("rule deployed at", addr.String(), "height", w.R.L.GetChainMeta().Height)
 		to := fix.FullID(fix.ChainB, fix.Svc2)
-		for _, c := range []struct{ from string; k crypto.PrivateKey }{{fix.FullID(fix.ChainW, fix.SvcW), fix.KW}, {fix.FullID(fix.ChainF, fix.SvcF), fix.KF}} {
+		for _, c := range []struct {
+			from string
+			k    crypto.PrivateKey
+		}{{fix.FullID(fix.ChainW, fix.SvcW), fix.KW}, {fix.FullID(fix.ChainF, fix.SvcF), fix.KF}} {
 			ib := &pb.IBTP{From: c.from, To: to, Index: 1}
 			res := w.Block(fix.IBTPTx(c.k, w.N.Next(c.k), ib, []byte("True-proof")))
 			fmt.Printf("from %s: status=%v ret=%q\n", c.from, res.Receipts[0].Status, res.Receipts[0].Ret)
